@@ -1,10 +1,10 @@
 package sqlh
 
 import (
-	"os"
 	"context"
 	"encoding/json"
 	"fmt"
+	"os"
 	"sort"
 	"strconv"
 	"strings"
